@@ -51,7 +51,10 @@ Record config := mkCfg {
   c_hash : N -> N -> N;          (* hash::hash_with_max key n   (DefaultHasher is opaque) *)
   c_custom : N -> N -> N;        (* CustomHashFunction::hash key n, arbitrary *)
   c_prio_of : N -> N;            (* PriorityManager::get_priority, as an index *)
-  c_discardable : N -> bool }.   (* PriorityManager::is_discardable *)
+  c_discardable : N -> bool;     (* PriorityManager::is_discardable *)
+  c_shutdown_worker_queues : bool }.
+    (* true = the code after `fix: report jobs queued on workers to the discard handler when the
+       factory stops` (F4); false = the rule before it, kept for the refutation witness *)
 
 (* factory-side bookkeeping of one worker slot (WorkerProperties) *)
 Record wprops := mkW {
@@ -747,9 +750,18 @@ Fixpoint drain_queue_shutdown (fuel : nat) (w : world) : world :=
            end
   end.
 
+(* discard_queued_jobs_on_shutdown for every pool worker *)
+Definition shutdown_events (l : list job) (out : list event) : list event :=
+  fold_left (fun o j => EDisc (j_id j) RShutdown :: o) l out.
+
+Definition shutdown_worker_queues (w : world) : world :=
+  let out := fold_left (fun o e => shutdown_events (w_queue (snd e)) o) (pool w) (evs w) in
+  set_pool (map (fun e => (fst e, set_w_queue [] (snd e))) (pool w)) (set_evs out w).
+
 (* post_stop up to the point where it waits for the workers *)
-Definition post_stop (w : world) : world :=
+Definition post_stop (c : config) (w : world) : world :=
   let w := drain_queue_shutdown (S (length (concat (fq w)))) w in
+  let w := if c_shutdown_worker_queues c then shutdown_worker_queues w else w in
   let w := fold_left (fun w e => stop_actor (w_aid (snd e)) w) (pool w) w in
   set_fstatus FStopping w.
 
@@ -793,7 +805,7 @@ Definition send_msg (s : send) (w : world) : world :=
 
 Definition factory_step (c : config) (w : world) : world :=
   if running_now w && negb (held w) then
-    if stop_req w then post_stop w
+    if stop_req w then post_stop c w
     else
       match inbox_sup w with
       | a :: rest => worker_died c a (set_inbox_sup rest w)
